@@ -11,7 +11,7 @@ Steps (all in /tmp/mut/confirm, a detached worktree of /repo HEAD with its own t
 """
 import json, os, re, shutil, subprocess, sys, time
 
-WT = "/tmp/mut/confirm"
+WT = os.environ.get("CONFIRM_WT", "/tmp/mut/confirm")
 
 
 def sh(cmd, cwd=WT, timeout=3600):
